@@ -27,9 +27,25 @@ fn driver(prop: &str) -> Option<(&'static str, fn(&mut Cx, &mut Rng) -> R)> {
         "C13" => ("C13", props::c13::case),
         "C15" => ("C15", props::c15::case),
         "C16" => ("C16", props::c16::case),
+        "C19" => ("C19", props::c19::case),
         "C20" => ("C20", props::c20::case),
+        "T00" => ("T00", selftest),
         _ => return None,
     })
+}
+
+/// harness self-test (manual): case 0 = unexpected #[track_caller] library panic, case 1 = harness panic
+fn selftest(cx: &mut Cx, _rng: &mut Rng) -> R {
+    if cx.case % 2 == 0 {
+        let mut g = petgraph::Graph::<(), (), petgraph::Directed, u8>::with_capacity(0, 0);
+        for _ in 0..300 {
+            g.add_node(());
+        }
+    } else {
+        let v: Vec<u32> = vec![];
+        let _ = v[3];
+    }
+    Ok(())
 }
 
 fn main() {
